@@ -21,6 +21,9 @@ pub enum UnitMode {
     Grid(u32),
     /// explicit list of values, each treated as one branch (weights are NOT probabilities)
     Alphabet(Vec<f64>),
+    /// the j-th unit draw of a run returns script[j] (a single branch); draws beyond the script
+    /// return 0.5 and are counted in `units_beyond_script()`
+    Script(Vec<f64>),
 }
 
 #[derive(Clone, Copy, Debug, PartialEq, Eq)]
@@ -138,6 +141,15 @@ pub fn unit() -> f64 {
         UnitMode::Alphabet(v) => {
             let j = pick(v.len() as u32, 1);
             v[j as usize]
+        }
+        UnitMode::Script(v) => {
+            let j = ST.with(|s| s.borrow().trace.iter().filter(|d| d.kind == 1).count());
+            pick(1, 1);
+            if j < v.len() {
+                v[j]
+            } else {
+                0.5
+            }
         }
     }
 }
